@@ -448,3 +448,51 @@ Example respects_denotation_satisfiable : respects_denotation unit (H_bin [65; 6
 Proof. apply H_bin_respects. Qed.
 Example respects_cidr6_satisfiable : respects_cidr6 unit (H_bin [65; 66; 67]%N).
 Proof. apply H_bin_cidr. Qed.
+(* ... and by one that looks at STRING constants (the kind respects_cidr6 is about) *)
+Example respects_denotation_satisfiable_str : respects_denotation unit (H_str (u "10.0.0.0/8")).
+Proof. apply H_str_respects. Qed.
+Example respects_cidr6_satisfiable_str : respects_cidr6 unit (H_str (u "2001:db8::/32")).
+Proof. apply H_str_cidr. Qed.
+
+(* ---- the SHARED TRUSTED BASE of Spec/PatternSemantics.v and Model/PatternEq.v: the helper functions from which
+        the denotation of a constant is built are defined in the model file and used on both sides, so the soundness
+        theorems cannot see an error in them.  Anchors on known vectors (kernel-evaluated): RFC 4648 section 10 for
+        base64; hex; the address forms glibc inet_aton accepts (decimal, octal, hexadecimal parts, 1-4 parts, trailing
+        white space) and rejects; inet_ntoa; int(); CIDR masking and the canonical IPv4 / IPv6 texts; the special
+        paths.  The correspondence run exercises the same helpers against the running implementation. ---- *)
+Example anchor_base64_rfc4648 :
+  map b64_decode [u ""; u "Zg=="; u "Zm8="; u "Zm9v"; u "Zm9vYg=="; u "Zm9vYmE="; u "Zm9vYmFy"] =
+  map u [""; "f"; "fo"; "foo"; "foob"; "fooba"; "foobar"]%string.
+Proof. vm_compute. reflexivity. Qed.
+Example anchor_hex :
+  hex_decode (u "deadBEEF") = [222; 173; 190; 239]%N /\ hex_decode (u "00ff") = [0; 255]%N /\ hex_decode (u "") = [].
+Proof. vm_compute. repeat split. Qed.
+Example anchor_inet_aton :
+  inet_aton (u "10.0.0.1") = AtonOk [10; 0; 0; 1]%N /\ inet_aton (u "1.2.3.004") = AtonOk [1; 2; 3; 4]%N /\
+  inet_aton (u "010.0.0.1") = AtonOk [8; 0; 0; 1]%N /\ inet_aton (u "0x7f.1") = AtonOk [127; 0; 0; 1]%N /\
+  inet_aton (u "127.1") = AtonOk [127; 0; 0; 1]%N /\ inet_aton (u "1.2.3.4 x") = AtonOk [1; 2; 3; 4]%N /\
+  inet_aton (u "1.2.3.4x") = AtonFail /\ inet_aton (u "1.2.3.4.5") = AtonFail /\ inet_aton (u "256.1.1.1") = AtonFail.
+Proof. vm_compute. repeat split. Qed.
+Example anchor_inet_ntoa_int : inet_ntoa [10; 0; 0; 1]%N = u "10.0.0.1" /\
+  py_int (u " 24 ") = Some 24%Z /\ py_int (u "+8") = Some 8%Z /\ py_int (u "1_0") = Some 10%Z /\ py_int (u "2 4") = None /\ py_int (u "0x10") = None /\
+  find_cp 47%N (u "a/b/c") = Some (u "a", u "b/c").
+Proof. vm_compute. repeat split. Qed.
+Example anchor_ipv4_canonical :
+  ip_canon false (u "10.9.9.9/8") = CanonTo (u "10.0.0.0/8") /\ ip_canon false (u "10.1.2.3/12") = CanonTo (u "10.0.0.0/12") /\
+  ip_canon false (u "1.2.3.4/32") = CanonTo (u "1.2.3.4") /\ ip_canon false (u "1.2.3.004") = CanonTo (u "1.2.3.4") /\
+  ip_canon false (u "1.2.3.4/33") = CanonKeep.
+Proof. vm_compute. repeat split. Qed.
+Example anchor_ipv6_canonical :
+  inet_pton6 (u "2001:db8::1") = PtonOk [32; 1; 13; 184; 0; 0; 0; 0; 0; 0; 0; 0; 0; 0; 0; 1]%N /\
+  inet_pton6 (u "1::2::3") = PtonFail /\
+  ip_canon true (u "2001:DB8:0:0::1/32") = CanonTo (u "2001:db8::/32") /\
+  ip_canon true (u "::FFFF:1.2.3.4") = CanonTo (u "::ffff:1.2.3.4") /\
+  ip_canon true (u "1:0:0:2:0:0:0:3") = CanonTo (u "1:0:0:2::3").
+Proof. vm_compute. repeat split. Qed.
+Example anchor_special_paths :
+  special_kind (u "ipv4-addr") [SKey (u "value")] = SpIp false /\ special_kind (u "ipv6-addr") [SKey (u "value")] = SpIp true /\
+  special_kind (u "windows-registry-key") [SKey (u "key")] = SpReg /\
+  special_kind (u "windows-registry-key") [SKey (u "values"); SIdx 0; SKey (u "name")] = SpReg /\
+  special_kind (u "file") [SKey (u "name")] = SpNone /\ special_kind (u "ipv4-addr") [SKey (u "value"); SKey (u "x")] = SpNone /\
+  is_matches OpMatches = true /\ is_matches OpLike = false.
+Proof. vm_compute. repeat split. Qed.
